@@ -121,6 +121,10 @@ def run(rep):
              'declarations first; noLongerProvides declares '
              'directlyProvidedBy(object) - interface; directlyProvidedBy '
              'strips exactly the trailing class specification', floor=3)
+    rep.rule('R20.7', 'membership and iteration read the same, current data: every '
+             'changed() override of a declaration class refreshes the implied set '
+             'through Specification.changed on every path (shared with C02 R02.4)',
+             floor=3)
     rep.decline('the ordered-set laws over all interface DAGs (they depend on '
                 'extends, i.e. on C02/C03)')
 
@@ -193,6 +197,10 @@ def run(rep):
               bool(find_all(f, 'Specification.__init__(self, _normalizeargs(bases))')),
               'Declaration(*bases) stores the normalised arguments as bases, in '
               'order', node=f)
+
+    # ---- R20.7 ---------------------------------------------------------------
+    from .C02 import r02_4
+    r02_4(rep, rep.repo, 'R20.7')
 
     # ---- R20.6 ---------------------------------------------------------------
     declsem.provides_users(rep, dmod, 'R20.6')
